@@ -79,4 +79,6 @@ package phase2
 //@   loop range(g.Nodes)#2 index c
 //@     invariant forall j int :: 0 <= j && j < len(g.Nodes) ==> has(height, g.Nodes[j]) && height[g.Nodes[j]] >= 1
 //@     invariant nlayers >= 1
+//@     invariant exists j int :: 0 <= j && j < len(g.Nodes) && height[g.Nodes[j]] == nlayers
+//@     invariant nodesClosed(g) && outWF() && memoOK(height)
 //@     invariant forall k int :: 0 <= k && k < c ==> g.Nodes[k].Layer == nlayers - height[g.Nodes[k]]
